@@ -20,6 +20,8 @@ import math
 from gscrib.enums.base_enum import BaseEnum
 
 
+ANGLE_TOLERANCE = 1e-9  # radians
+
 SYNONYMS = {
     "cw": "clockwise",
     "ccw": "counter"
@@ -53,11 +55,15 @@ class Direction(BaseEnum):
             Enforced angle
         """
 
+        # Start and end points at the same angle mean a full turn. The
+        # comparison needs a tolerance, because the angles are computed
+        # from coordinates that may carry floating point noise.
+
         if self is Direction.CLOCKWISE:
-            if angle >= 0:
+            if angle > -ANGLE_TOLERANCE:
                 angle -= 2 * math.pi
         else:
-            if angle <= 0:
+            if angle < ANGLE_TOLERANCE:
                 angle += 2 * math.pi
 
         return angle
